@@ -187,6 +187,8 @@ class Minimiser:
             case = self.try_one(case, "tool started by its plain path", env_set("invoked_via_symlink", False))
         if "environ" not in (case.get("base_env") or {}):
             case = self.try_one(case, "no extra environment variables", env_set("environ", {}))
+        if "stderr_closed" not in (case.get("base_env") or {}) and case["env"].get("stderr_closed"):
+            case = self.try_one(case, "stderr open", env_set("stderr_closed", False))
         if "encoding" not in (case.get("base_env") or {}) and (case["env"].get("encoding") or "utf-8") != "utf-8":
             case = self.try_one(case, "UTF-8 locale", env_set("encoding", "utf-8"))
         if "symlink_farm" not in (case.get("base_env") or {}):
@@ -215,6 +217,8 @@ class Minimiser:
                 case = self.ddmin_list(case, lambda c, key=key: c["selection"][key], lambda c, v, key=key: (c["selection"].__setitem__(key, v), c)[1], key)
         if case["selection"].get("user_main"):
             case = self.try_one(case, "no user main file", lambda c: c["selection"].pop("user_main"))
+            if case["selection"].get("user_main", {}).get("dup_include"):
+                case = self.try_one(case, "user main file without repeated includes", lambda c: c["selection"]["user_main"].__setitem__("dup_include", False))
             if case["selection"].get("user_main", {}).get("non_ascii"):
                 case = self.try_one(case, "user main file in plain ASCII", lambda c: c["selection"]["user_main"].__setitem__("non_ascii", False))
             if case["selection"].get("user_main"):
